@@ -92,6 +92,10 @@ def fix(c):
             return None
     if c['kind'] in ('time', 'spacetime') and c['P'] > 1 and 'GAUSS' in c['quad']:
         return None  # refused at construction (several steps need the right end point as node); C20's subject
+    if c['kind'] in ('time', 'spacetime') and c['P'] > 1 and c['L'] > 1 and c.get('do_coll_update'):
+        # controller_MPI refuses a collocation update in multi-level multi-step runs at construction ("we assume
+        # uend^k = u_M^k"; the serial controller only tests the node type): a documented refusal, outside the quantifier
+        return None
     if c['kind'] == 'time':
         if c['L'] == 1:
             c['predict'] = None if c['predict'] is None else c['predict']
